@@ -482,3 +482,8 @@ func TestVerif_C03_exhaustive(t *testing.T) {
 	}
 	kit.Enumerate(t, "C03", "router-exhaustive", c03Enumerate([]string{"a", ":x"}, []string{"a", "b"}, 3, []string{"GET", "POST"}), c03Interp)
 }
+
+// Native coverage-guided fuzzing (thorough tier): same generator, same oracle.
+func FuzzVerif_C03_router(f *testing.F) {
+	kit.Fuzz(f, "C03", "router-fuzz", nil, c03Gen, c03Interp)
+}
